@@ -488,7 +488,7 @@ class Text(JupyterMixin):
         Args:
             size (int): The desired size of the text.
         """
-        text_length = len(self)
+        text_length = cell_len(self.plain)
         if text_length > size:
             excess = text_length - size
             whitespace_match = _re_whitespace.search(self.plain)
